@@ -971,6 +971,17 @@ func streamGoConv(o *Out, r *rand.Rand, n int, thorough bool) {
 			}
 			return int64(1 + len(rest))
 		})
+		// Go code calling a script function of ANOTHER shape than the func type it is converted to: variadic script functions
+		// receive the arguments Go passes (the tail as a list of those values); too many results are an error
+		_ = e.Define("call2", func(f func(int64, int64) int64) int64 { return f(3, 4) })
+		_ = e.Define("call3s", func(f func(string, int64, int64) string) string { return f("s", 1, 2) })
+		_ = e.Define("pair", func(f func() (int64, int64)) int64 { a, b := f(); return a*10 + b })
+		// a Go function whose result type is an interface WITH methods: what it returns is the value inside, whether the result
+		// is bound to a variable first or handed straight on
+		_ = e.Define("mkShape", func() goShape { return &goCirc{R: 2} })
+		_ = e.Define("mkErr", func() error { return &goMyErr{"boom"} })
+		_ = e.Define("area", func(c *goCirc) int64 { return c.R * c.R })
+		_ = e.Define("errText", func(x *goMyErr) string { return x.msg })
 		named := []struct {
 			src   string
 			check func(res interface{}, err error) string // "" = fine
@@ -1008,6 +1019,54 @@ func streamGoConv(o *Out, r *rand.Rand, n int, thorough bool) {
 			{"func w() {\nvar la = 0\nvar lb = 0\nscanv(\"p\", &la, &lb)\nreturn [la, lb]\n}\nw()", func(res interface{}, err error) string {
 				if err != nil || fmt.Sprint(res) != "[200 201]" {
 					return fmt.Sprintf("scanv inside a function on its locals: got %v, err %v", res, err)
+				}
+				return ""
+			}},
+			{"call2(func(xs...) { return xs[0] + xs[1] })", func(res interface{}, err error) string {
+				if err != nil || fmt.Sprint(res) != "7" {
+					return fmt.Sprintf("a variadic script callback must see the arguments Go passes (3, 4): got %v, err %v", res, err)
+				}
+				return ""
+			}},
+			{"call2(func(a, b...) { return a * 10 + b[0] + len(b) })", func(res interface{}, err error) string {
+				if err != nil || fmt.Sprint(res) != "35" {
+					return fmt.Sprintf("func(a, b...) called by Go with (3, 4): a = 3, b = [4] expected (35): got %v, err %v", res, err)
+				}
+				return ""
+			}},
+			{"call3s(func(s, r...) { return s + \"\" + (r[0] + r[1]) + len(r) })", func(res interface{}, err error) string {
+				if err != nil || fmt.Sprint(res) != "s32" {
+					return fmt.Sprintf("func(s, r...) called by Go with (\"s\", 1, 2): got %v, err %v", res, err)
+				}
+				return ""
+			}},
+			{"call2(func(a, b) { return a - b })", func(res interface{}, err error) string {
+				if err != nil || fmt.Sprint(res) != "-1" {
+					return fmt.Sprintf("func(a, b) called by Go with (3, 4): got %v, err %v", res, err)
+				}
+				return ""
+			}},
+			{"pair(func() { return 1, 2 })", func(res interface{}, err error) string {
+				if err != nil || fmt.Sprint(res) != "12" {
+					return fmt.Sprintf("two results: got %v, err %v", res, err)
+				}
+				return ""
+			}},
+			{"pair(func() { return 1, 2, 3 })", func(res interface{}, err error) string {
+				if err == nil || strings.Contains(err.Error(), "index out of range") {
+					return fmt.Sprintf("three results for a func type with two: an error about the result count expected, got %v, err %v", res, err)
+				}
+				return ""
+			}},
+			{"x = mkShape()\n[area(x), area(mkShape()), area((mkShape())), area([mkShape()][0])]", func(res interface{}, err error) string {
+				if err != nil || fmt.Sprint(res) != "[4 4 4 4]" {
+					return fmt.Sprintf("a result of an interface type with methods handed to a parameter of the dynamic type, bound first / direct / through id / through an element: got %v, err %v", res, err)
+				}
+				return ""
+			}},
+			{"x = mkErr()\n[errText(x), errText(mkErr())]", func(res interface{}, err error) string {
+				if err != nil || fmt.Sprint(res) != "[boom boom]" {
+					return fmt.Sprintf("an error-typed result handed to a parameter of its dynamic type: got %v, err %v", res, err)
 				}
 				return ""
 			}},
@@ -1132,3 +1191,12 @@ func execGuard(e *env.Env, src string) (res interface{}, err error, panicked int
 	res, err = vm.Execute(e, nil, src)
 	return
 }
+
+type goShape interface{ Area() int64 }
+type goCirc struct{ R int64 }
+
+func (c *goCirc) Area() int64 { return c.R * c.R }
+
+type goMyErr struct{ msg string }
+
+func (e *goMyErr) Error() string { return e.msg }
